@@ -22,6 +22,7 @@ def run(c):
 
     c.assumptions += [
         "Unicode NFC, strings.ToLower and x/net/idna are parameters of the model; their laws (idempotence of NFC∘lower, A-label/U-label/case/NFD variants mapping to one DNS key) are sampled on the real libraries, not proved",
+        "ill-formed UTF-8: the model runs on the code points Go's range yields (decodeUtf8, proved equivalent to the byte test for IsASCII); that the library primitives commute with this decoding is sampled (primitive tables are keyed by decoded code points), not proved",
     ]
     return c.finish(
         rule="strings over the property's alphabet (ASCII specials, quotes, '@', combining marks, case-sensitive letters, fullwidth forms, punycode labels), "
@@ -35,7 +36,14 @@ def run(c):
         "Split re-joins to its input for every string of the run; a neighbouring DIFFERENT address (one code point inserted / deleted at the start, end or inside the local part or a label, "
         "one backslash of a quoted spelling dropped, one code point replaced by its NFKC form; 'different' by the harness' own unquoting + NFC + simple-lower-case fold) gets another key / cleaned form and is not Equal; "
         "a quoted string unquotes to what the harness spelled; "
-        "every address address.Valid accepts gets a key from ForLookup / CleanDomain / dns.ForLookup / dns.ToUnicode, conversions succeed and round-trip on generated addresses; distinct = distinct op lines",
+        "every address address.Valid accepts gets a key from ForLookup / CleanDomain / dns.ForLookup / dns.ToUnicode, conversions succeed and round-trip on generated addresses; "
+        "pairs for 'Equal <=> the two ForLookup keys are equal' (and dns.Equal <=> dns keys) from every domain class (valid U-/A-labels, undecodable A-labels: overflow / bad digits / non-ASCII inside / dangling delimiter, "
+        "code points no host name may contain, over-long labels and names, empty labels and domains that normalise to nothing, address literals; respelled in ASCII / full upper case, NFD, trailing dot, A<->U labels, another member or class) "
+        "x every local-part equivalence row (NFC/NFD, letter case, width, U+0130 / dotless i, final sigma, Angstrom / Kelvin signs, ligatures, sharp s, quoting), plus malformed shapes (bare local part vs a domain that normalises to nothing, "
+        "missing local part / domain, two '@'); the violation signature names the ForLookup branch (both keys computed / undecodable domain / does not split); "
+        "byte-level inputs (op lines carry hex bytes, the model decodes them like Go's range): arbitrary byte strings and address-shaped ones with lone continuation bytes, Latin-1 letters, C0/C1/F5..FF, overlong forms, "
+        "surrogates, beyond U+10FFFF, truncated sequences, mixed with ASCII and well-formed characters, through every function; monitor: IsASCII(s) <=> every BYTE of s < 0x80 for every string of the run, "
+        "whatever ToASCII returns without error is ASCII, ToUnicode keeps the local part; distinct = distinct op lines",
         explanation="theorems for all code-point lists and all primitive implementations; model tied to the code by differential runs; laws of the Unicode primitives sampled",
         search=search,
     )
